@@ -463,6 +463,8 @@ class Ex:
             return a.t == b.t
         if isinstance(a, VBool) and isinstance(b, VBool):
             return z_bool(a.v) == z_bool(b.v) if not (is_conc(a.v) and is_conc(b.v)) else a.v == b.v
+        if isinstance(a, VStr) and isinstance(b, VStr) and is_conc(a.v) and is_conc(b.v):
+            return a.v == b.v           # Enum members are modelled by their values (`x is Enum.member`)
         if isinstance(a, VClass) and isinstance(b, VClass):
             return a.ci is b.ci
         if isinstance(a, VLib) and isinstance(b, VLib):
